@@ -396,7 +396,7 @@ func trieDepth(keys [][]byte) int {
 	return 1 + max(trieDepth(s0), trieDepth(s1))
 }
 
-const findingRules = "a failing case (S violation, panic or unexpected error) of mode PID is a finding, rules tried in this order: " +
+const findingRules = "a failing case (S violation, panic or unexpected error) of mode PID can only be a finding if the IDENTICAL history (same operations, backend, write-log option; for pair/twin violations both members) re-run in a fresh database with ample capacities node_cap=5000, value_cap=16777216 is clean; if that re-run fails too the failure is an ordinary violation reported on the ample-capacity variant (note: fails with ample capacities too) and no finding is emitted. With a clean ample re-run, rules tried in this order: " +
 	"(1) PID:node-capacity-not-above-path-depth iff 0 < node_cap <= D+1, D = the maximum so far of the number of internal nodes on a root-to-leaf path of the compressed binary trie over the tree-level reference key set; " +
 	"(2) PID:embedded-leaf-evicted-under-dirty-internal-node iff 0 < value_cap < 16777216 and, at or before the first failure, either mkvs.VerifScan reported DirtyNodeWithEvictedLeaf > 0 or the tree-level reference key set contained a key that is a proper byte-prefix of another key (the empty key with any other key included); " +
 	"(3) otherwise it is an ordinary violation. A pair/twin violation is attributed to the finding of a member that satisfies (1) or (2) with its flags over its whole run."
@@ -422,6 +422,12 @@ func classify(c Case, f1, prefixPair bool, depth int) (key, mechanism string) {
 	return "", ""
 }
 
+// ample is the identical history with capacities that never evict.
+func ample(c Case) Case {
+	c.NodeCap, c.ValueCap = 5000, 16777216
+	return c
+}
+
 // recordFinding appends the finding (replay = the un-shrunk description) and
 // keeps, per key, one shrunk replay in summary.Extra["findings_shrunk"].
 func recordFinding(sum *coqout.Summary, key, what string, c Case, sig sigState, shrink func() (Case, string)) {
@@ -438,7 +444,7 @@ func recordFinding(sum *coqout.Summary, key, what string, c Case, sig sigState, 
 	}
 	sc, swhat := shrink()
 	fs[key] = map[string]any{"case": sc, "what": swhat, "count": 1,
-		"sig_dirty_node_with_evicted_leaf": sig.failF1, "sig_dirty_pointer_without_node": sig.failF2, "max_path_depth": sig.failDepth, "had_prefix_pair": sig.failPrefix}
+		"sig_dirty_node_with_evicted_leaf": sig.failF1, "sig_dirty_pointer_without_node": sig.failF2, "max_path_depth": sig.failDepth, "had_prefix_pair": sig.failPrefix, "ample_rerun": "clean"}
 	sum.Extra["finding_rules"] = findingRules
 }
 
